@@ -500,6 +500,13 @@ def s(self, parent_tree):
 """, sp)
     same_store(ctx, "K5", "ProposalDistribution._set_parent_tree: the attached tree, else the parent's own", sp, ex, sps, "parent_tree")
     ctx.analysed(f, g, sp)
+    bs = prog.fn("Particle.built_tree@setter")
+    exb = extract(prog, bs)
+    spb = spec(prog, "def s(self, tree):\n    self._built_tree.append(tree)\n", bs)
+    same_events(ctx, "K5", "Particle.built_tree setter pushes the attached tree", bs, exb.calls(".append"), spb.calls(".append"), "push")
+    bg = prog.fn("Particle.built_tree@getter")
+    exg = extract(prog, bg)
+    same(ctx, "K5", "Particle.built_tree getter hands back the most recently attached tree", bg, exg.result, spec(prog, "def s(self):\n    return self._built_tree.pop()\n", bg).result, "attached tree")
     # recorded, not a rule: clearing
     c = prog.fn("clear_proposal_dist_caches")
     ctx.note("clear_proposal_dist_caches clears: %s (not a premise of value-equality)" % sorted(u(x.func.value) for x in calls(c.node, last="cache_clear")))
